@@ -26,7 +26,7 @@ from pymbolic.mapper.c_code import CCodeMapper
 from pbt import cgen
 from pbt.refsem import RefSkip, exc_site, ref_eval
 from pbt.runner import Result
-from pbt.spec import HarnessError, build
+from pbt.spec import retype, HarnessError, build
 
 PROP = "C14"
 LEVEL = "translation_validation"
@@ -614,7 +614,8 @@ def c_int_text(s):
     t = s[0]
     if t == "Const":
         return s[1] == "int"
-    if t == "Power" and s[2][:2] == ["Const", "int"]:
+    if t == "Power" and s[2][0] == "Const" and s[2][1] in ("int", "float"):
+        # map_power tests the exponent with is_zero(): 0 and 0.0, 1 and 1.0 ... alike
         if s[2][2] == 0:
             return True             # printed as 1 whatever the base is
         return s[2][2] in (1, 2) and c_int_text(s[1])
@@ -843,6 +844,20 @@ def replay_history(spec, res):
                 if not (isinstance(pr, list) and len(pr) == 2 and isinstance(pr[0], str)
                         and IDENT.fullmatch(pr[0])):
                     raise HarnessError(f"bad mapped pair {pr!r}")
+                if isinstance(pr[1], list) and pr[1] and pr[1][0] == "Ref":
+                    # a value written in terms of a name the parent has already
+                    # assigned (what a caller mapping the parent's CSEs produces)
+                    if len(pr[1]) != 3 or not all(
+                            isinstance(q, int) and not isinstance(q, bool) for q in pr[1][1:]) \
+                            or not 1 <= pr[1][2] <= 9:
+                        raise HarnessError(f"bad mapped pair {pr!r}")
+                    if pr[0] in have or not m.cse_name_list:
+                        continue
+                    have.add(pr[0])
+                    res.label("hist:mapped-value-uses-inherited-name")
+                    tgt = m.cse_name_list[pr[1][1] % len(m.cse_name_list)][0]
+                    pairs.append((pr[0], f"{tgt} + {pr[1][2]}"))
+                    continue
                 validate(pr[1], {"Var", "Const"}, env)
                 if pr[0] in have or (pr[1][0] == "Const" and pr[1][2] < 0):
                     continue        # the caller may not hand over a name twice
@@ -854,6 +869,11 @@ def replay_history(spec, res):
             except Exception as exc:
                 res.fail("copy-raised:" + exc_site(exc), f"{type(exc).__name__}: {exc}")
                 return None
+            # the copy's list as it stands: every name assigned before it is used
+            new = states[-1]
+            res.compared()
+            new.static_ok = check_list(res, list(new.mapper.cse_name_list), m.cse_prefix,
+                                       new.n_inherited) and new.static_ok
             continue
         # -- map ---------------------------------------------------------------
         if len(op) != 3:
@@ -1445,6 +1465,24 @@ def float_case(draw):
     s, _ = g.gen(draw(st.integers(2, 5)))
     if not is_op(s):
         s = ["Sum", [s, ["Var", "x"]]]
+    if draw(st.integers(0, 3)) == 0:
+        # an int constant and the == float constant in one expression, the float one
+        # where it decides between integer and floating division
+        k = draw(st.sampled_from((2, 3, 4, 5, 10)))
+        j = C(draw(st.sampled_from((1, 3, 7))))
+        v = ["Var", draw(st.sampled_from(FLOAT_VARS))]
+        ictx = draw(st.sampled_from((["Product", [v, C(k)]], ["Quotient", v, C(k)],
+                                     ["Sum", [v, C(k)]], ["Product", [C(k), v]],
+                                     ["Power", v, C(k)])))
+        fctx = draw(st.sampled_from((["Quotient", j, F(float(k))],
+                                     ["Quotient", ["Sum", [j, C(1)]], F(float(k))],
+                                     ["Product", [j, F(float(k))]],
+                                     ["Quotient", ["Product", [j, C(3)]], F(float(k))])))
+        pair = [ictx, fctx] if draw(st.booleans()) else [fctx, ictx]
+        s2 = draw(st.sampled_from((["Sum", pair], ["Sum", [*pair, s]], ["Sum", [s, *pair]],
+                                   ["Product", pair])))
+        if g.ok(s2) is not None:
+            s = s2
     used = {t[1] for t in subtrees(s) if t[0] == "Var"} & set(env)
     return mapper_opts(draw, {"expr": s, "env": {k: v for k, v in env.items() if k in used}})
 
@@ -1454,6 +1492,18 @@ def float_case(draw):
 # {{{ histories
 
 EXTRA_NAMES = ("_cse_u", "_cse_u_2", "_cse0", "_cse1", "_cse_v", "ext", "_cse_tmp")
+
+
+def _retype_outside_wrappers(s, how):
+    """retype(), but wrapped sub-terms stay as they are: two wrappers that are == share
+    one assignment by design (what == cannot tell apart is F38's subject, not C14's)"""
+    if isinstance(s, list) and s and s[0] == "CommonSubexpression":
+        return s
+    if isinstance(s, list) and s and s[0] == "Const":
+        return retype(s, how)
+    if isinstance(s, list):
+        return [_retype_outside_wrappers(c, how) for c in s]
+    return s
 
 
 @st.composite
@@ -1487,12 +1537,20 @@ def history_case(draw):
             s, _ = term(draw(st.integers(0, 2)))
             ops.append(["map", m, s])
             mapped_on.add(m)
+            if kind == "float" and draw(st.integers(0, 2)) == 0:
+                # the same mapper then prints an == expression whose constants have
+                # the other type (2.0 for 2): equal keys, different C text
+                tw = _retype_outside_wrappers(s, draw(st.sampled_from(("i2f", "f2i"))))
+                if tw != s and g.ok(tw) is not None:
+                    ops.append(["map", m, tw])
         elif c <= 7:
             ops.append(["copy", m])
             n_mappers += 1
         else:
             pairs = [[draw(st.sampled_from(EXTRA_NAMES)),
-                      draw(st.sampled_from((["Var", "x"], ["Var", "y"], C(3))))]
+                      draw(st.sampled_from((["Var", "x"], ["Var", "y"], C(3),
+                                            ["Ref", draw(st.integers(0, 3)),
+                                             draw(st.integers(1, 3))])))]
                      for _ in range(draw(st.integers(1, 2)))]
             ops.append(["copy_mapped", m, pairs])
             n_mappers += 1
@@ -1568,7 +1626,7 @@ KNOWN = {
     # such terms is an integer division in C
     "F-C14-pow0": lambda sub, spec, fail: bool(re.match(
         _VM + r"Quotient\(int-typed operands\)$", fail.kind)) and any(
-            t[0] == "Power" and s_is_const(t[2], 0)
+            t[0] == "Power" and t[2][0] == "Const" and t[2][2] == 0
             for e in _all_exprs(spec) for t in subtrees(e)),
     # copy() / copy_with_mapped_cses() lose the expression -> name table and
     # fill the set of taken names with texts
